@@ -1230,6 +1230,19 @@ func (m *Manager) Unlock(ns walletdb.ReadBucket, passphrase []byte) error {
 	// Use the crypto private key to decrypt all of the account private
 	// extended keys.
 	for _, manager := range m.scopedManagers {
+		// The accounts of the addresses that wait for their private key
+		// must be in the account cache, so that their keys are decrypted
+		// below (InvalidateAccountCache may have dropped them).
+		for _, info := range manager.deriveOnUnlock {
+			_, err := manager.loadAccountInfo(
+				ns, info.managedAddr.InternalAccount(),
+			)
+			if err != nil {
+				m.lock()
+				return err
+			}
+		}
+
 		for account, acctInfo := range manager.acctInfo {
 			// Watch-only accounts have no private key to decrypt.
 			if len(acctInfo.acctKeyEncrypted) == 0 {
